@@ -465,7 +465,7 @@ func (c *Ctx) checkD3(r *ssa.Function, t onnxType) {
 		}
 	}
 	if readCall == nil {
-		c.undecided("R13", key, site, "raw reader does not use bytes.Reader.Read: unrecognised factoring")
+		c.checkD3Indexed(r, t, decW)
 		return
 	}
 	nV := resultOfCall(readCall, 0)
@@ -495,6 +495,93 @@ func (c *Ctx) checkD3(r *ssa.Function, t onnxType) {
 	ok := bufLen == t.width && cmpLen == t.width && decW == t.width && k == t.goT
 	c.decide(ok, "R13", key, site, fmt.Sprintf("buffer=%d compared=%d decoded=%d bytes = sizeof(%s)", bufLen, cmpLen, decW, types.Typ[t.goT].Name()),
 		fmt.Sprintf("raw reader for %s: buffer %d bytes, length compared with %d, %d bytes decoded, element size %d: values are not reinterpreted bit-exactly (or never decoded at all)", t.name, bufLen, cmpLen, decW, t.width))
+}
+
+// checkD3Indexed: reader that decodes straight from data[e:] with e advancing by a constant stride
+// (e = i*K or a loop variable stepped by K). Stride, decode width and element size must agree, and
+// because nothing notices a tail shorter than one element, a rejecting len(data) % K check is required.
+func (c *Ctx) checkD3Indexed(r *ssa.Function, t onnxType, decW int64) {
+	key := "R13:D3:" + fname(r)
+	site := c.pos(r.Pos())
+	data := r.Params[0]
+	stride := int64(-1)
+	for _, b := range r.Blocks {
+		for _, in := range b.Instrs {
+			call, ok := in.(*ssa.Call)
+			if !ok {
+				continue
+			}
+			o := calleeObj(call)
+			if o == nil || !strings.HasPrefix(qualName(o), "encoding/binary.(littleEndian).Uint") {
+				continue
+			}
+			sl, ok := call.Common().Args[len(call.Common().Args)-1].(*ssa.Slice)
+			if !ok || sl.X != data || sl.Low == nil {
+				continue
+			}
+			switch e := sl.Low.(type) {
+			case *ssa.BinOp:
+				if e.Op == token.MUL {
+					if k, ok := constInt(e.Y); ok {
+						stride = k
+					} else if k, ok := constInt(e.X); ok {
+						stride = k
+					}
+				}
+			case *ssa.Phi:
+				for _, ed := range e.Edges {
+					if inc, ok := ed.(*ssa.BinOp); ok && inc.Op == token.ADD && inc.X == ssa.Value(e) {
+						if k, ok := constInt(inc.Y); ok {
+							stride = k
+						}
+					}
+				}
+			}
+		}
+	}
+	if stride < 0 {
+		if decW == 1 || t.width == 1 {
+			// single-byte element types decoded by indexing data[i]
+			stride = 1
+			decW = 1
+		} else {
+			c.undecided("R13", key, site, "raw reader uses neither bytes.Reader.Read nor a constant-stride decode of data[e:]: unrecognised factoring")
+			return
+		}
+	}
+	k, _ := basicKindOfSliceElem(r.Signature.Results().At(0).Type())
+	ok := stride == t.width && decW == t.width && k == t.goT
+	c.decide(ok, "R13", key, site, fmt.Sprintf("stride=%d decoded=%d bytes = sizeof(%s)", stride, decW, types.Typ[t.goT].Name()),
+		fmt.Sprintf("raw reader for %s: stride %d bytes, %d bytes decoded, element size %d: values are not reinterpreted bit-exactly", t.name, stride, decW, t.width))
+	// partial tail
+	if t.width > 1 {
+		rem := false
+		for _, b := range r.Blocks {
+			if len(b.Instrs) == 0 {
+				continue
+			}
+			iff, ok := b.Instrs[len(b.Instrs)-1].(*ssa.If)
+			if !ok {
+				continue
+			}
+			bo, ok := iff.Cond.(*ssa.BinOp)
+			if !ok || (bo.Op != token.NEQ && bo.Op != token.EQL) {
+				continue
+			}
+			m, ok := bo.X.(*ssa.BinOp)
+			if !ok || m.Op != token.REM || !isLenCallOf(m.X, data) {
+				continue
+			}
+			if kk, ok := constInt(m.Y); !ok || kk != t.width {
+				continue
+			}
+			if z, ok := constInt(bo.Y); ok && z == 0 && c.edgeRejects(iff, bo.Op == token.NEQ) {
+				rem = true
+			}
+		}
+		c.decide(rem, "R13", "R13:D4tail:"+fname(r), site, "len(data) % element size != 0 returns an error",
+			"the reader decodes len(data)/size whole elements and never looks at the remaining bytes: a payload with a trailing partial element is loaded (or read past its end) instead of refused — the count gate cannot see dropped bytes")
+	}
 }
 
 // sliceConstLen: length of a slice built from a constant-size make (new [K]T + slice), or -1.
@@ -533,6 +620,13 @@ func (c *Ctx) checkD4(readers []*ssa.Function, di *decodeInfo) {
 			if isNilConst(ret.Results[0]) && !c.definitelyNonNilErr(ret.Results[1], ret.Block(), 0) {
 				bad = true
 			}
+		}
+		// a return that hands out values must lie on the err == io.EOF edge of the Read call: that is the
+		// only state in which bytes.Reader has consumed the payload completely (a short read has err == nil)
+		if why := c.valuesOnlyAtEOF(r); why != "" {
+			c.violate("R13", "R13:D4eof:"+fname(r), c.pos(r.Pos()), why)
+		} else if c.usesReaderRead(r) {
+			c.discharge("R13", "R13:D4eof:"+fname(r), c.pos(r.Pos()), "values are returned only when Read reported io.EOF (payload consumed in whole elements)")
 		}
 		switch {
 		case !bad:
@@ -885,4 +979,59 @@ func reachesWithin(from, to, hdr *ssa.BasicBlock) bool {
 		st = append(st, x.Succs...)
 	}
 	return false
+}
+
+func (c *Ctx) usesReaderRead(r *ssa.Function) bool {
+	for _, b := range r.Blocks {
+		for _, in := range b.Instrs {
+			if call, ok := in.(*ssa.Call); ok {
+				if o := calleeObj(call); o != nil && qualName(o) == "bytes.(Reader).Read" {
+					return true
+				}
+			}
+		}
+	}
+	return false
+}
+
+func (c *Ctx) valuesOnlyAtEOF(r *ssa.Function) string {
+	var readCall *ssa.Call
+	for _, b := range r.Blocks {
+		for _, in := range b.Instrs {
+			if call, ok := in.(*ssa.Call); ok {
+				if o := calleeObj(call); o != nil && qualName(o) == "bytes.(Reader).Read" {
+					readCall = call
+				}
+			}
+		}
+	}
+	if readCall == nil {
+		return ""
+	}
+	errV := resultOfCall(readCall, 1)
+	isEOF := func(v ssa.Value) bool {
+		ld, ok := v.(*ssa.UnOp)
+		if !ok {
+			return false
+		}
+		g, ok := ld.X.(*ssa.Global)
+		return ok && g.Name() == "EOF" && g.Pkg != nil && g.Pkg.Pkg.Path() == "io"
+	}
+	for _, ret := range returnsOf(r) {
+		if isNilConst(ret.Results[0]) || !isNilConst(ret.Results[1]) {
+			continue
+		}
+		ok := false
+		for _, g := range guardsOf(ret.Block()) {
+			for _, a := range atomsOf(g) {
+				if a.op == token.EQL && ((a.x == errV && isEOF(a.y)) || (a.y == errV && isEOF(a.x))) {
+					ok = true
+				}
+			}
+		}
+		if !ok {
+			return "decoded values are returned on a path where the reader did not report io.EOF: after a short read (trailing partial element) the elements decoded so far are handed out as if the payload were complete"
+		}
+	}
+	return ""
 }
